@@ -13,6 +13,7 @@ import shutil
 import signal
 import subprocess
 import sys
+import threading
 import time
 import traceback
 
@@ -49,12 +50,43 @@ def rng_for(*parts):
     return random.Random(derive_seed(*parts))
 
 
+_ctx = threading.local()
+_dup_roots = [0]
+
+
+def begin_case(case, pad=''):
+    """scratch directory names become a pure function of the case (and of the
+    order in which the engine asks for them): the absolute path of the world is
+    visible to the subject (string hashes, allocation sizes), so replay needs
+    the same path.  pad: extra characters in the name (an explored dimension
+    for C16)."""
+    body = json.dumps({k: v for k, v in case.items() if not k.startswith('_')}, sort_keys=True, default=str)
+    _ctx.digest = hashlib.sha1(body.encode()).hexdigest()[:14]
+    _ctx.n = 0
+    _ctx.pad = pad
+
+
+def set_pad(pad):
+    _ctx.pad = pad
+
+
 def new_root(tag='r'):
-    _counter[0] += 1
-    root = os.path.join(SCRATCH_BASE, 'jv-%d-%s-%d' % (os.getpid(), tag, _counter[0]))
-    if os.path.exists(root):
-        shutil.rmtree(root, ignore_errors=True)
-    os.makedirs(root)
+    digest = getattr(_ctx, 'digest', None)
+    if digest is None:
+        _counter[0] += 1
+        name = 'jv-%d-%s-%d' % (os.getpid(), tag, _counter[0])
+    else:
+        _ctx.n += 1
+        name = 'jv-%s-%s%d%s' % (digest, tag, _ctx.n, getattr(_ctx, 'pad', ''))
+    root = os.path.join(SCRATCH_BASE, name)
+    try:
+        os.mkdir(root)
+    except FileExistsError:
+        # the same case is being executed elsewhere right now: stay correct, lose exact replay
+        _dup_roots[0] += 1
+        _counter[0] += 1
+        root = '%s-dup%d-%d' % (root, os.getpid(), _counter[0])
+        os.makedirs(root)
     return root
 
 
@@ -328,6 +360,8 @@ def write_replay(pid, case, result, tag=None):
 
 def write_evidence(pid, tier, seed, level, coverage, wall, violations, assumptions):
     d = os.path.join(VERIF, 'evidence')
+    if os.environ.get('VERIF_NO_EVIDENCE'):
+        d = os.path.join(VERIF, 'out', 'evidence_scratch')
     os.makedirs(d, exist_ok=True)
     ev = {
         'property_id': pid, 'tier': tier, 'seed': int(seed), 'level': level,
